@@ -6,7 +6,6 @@ use risinglight::storage::verif_hooks as h;
 use serde_json::{Value, json};
 
 pub fn corrupt(depth: usize) -> Value {
-    let mut tried = 0u64;
     // two tables: `a` gets damaged, `b` must stay readable. 40 rows in 3 inserts, small blocks: several blocks per column file
     let mut sqls: Vec<String> = vec!["create table a(k int primary key, v int, s varchar)".into(), "create table b(k int primary key, v int)".into()];
     let row = |i: i64| format!("({i},{},'s{}')", i % 7, i * 3);
@@ -14,16 +13,39 @@ pub fn corrupt(depth: usize) -> Value {
     sqls.push(format!("insert into b values {}", (0..20i64).map(|i| format!("({i},{})", i % 3)).collect::<Vec<_>>().join(",")));
     let corrupt_before = sqls.len();
     let reads = ["select k, v, s from a", "select k, v, s from a", "select count(*), sum(v) from a", "select k, v from b", "select s from a where k >= 20", "select k, v from b"];
-    for r in reads { sqls.push(r.into()); }
     // 48-byte blocks: 8 int rows per block, so every column file of the 15/15/10-row RowSets has two blocks (damage beyond the
     // first block is only met while a scan is under way, not when the iterators are created)
-    let block = 48usize;
+    let first = scenario(depth, sqls, corrupt_before, &reads, expected(&reads), 48, " from a");
+    if first["found"] == json!(true) { return first; }
+    // a RowSet written by the COMPACTOR: three RowSets of a low-cardinality table (few distinct values per block: the compactor
+    // chooses dictionary encoding for what it writes) are merged by one compaction pass (`@compact`) before the damage; the
+    // blocks of the merged RowSet are protected like the ones an INSERT writes
+    let mut sqls: Vec<String> = vec!["create table a(v int, w int)".into()];
+    for _ in 0..3 { sqls.push(format!("insert into a values {}", (0..20i64).map(|i| format!("({},5)", i % 2)).collect::<Vec<_>>().join(","))); }
+    sqls.push("@compact".into());
+    let corrupt_before = sqls.len();
+    let reads2 = ["select v, w from a", "select v, w from a", "select count(*), sum(v), sum(w) from a"];
+    let mut rows: Vec<Vec<String>> = (0..60i64).map(|i| vec![(i % 2).to_string(), "5".to_string()]).collect(); rows.sort();
+    let base2 = vec![rows.clone(), rows, vec![vec!["60".to_string(), "30".to_string(), "300".to_string()]]];
+    let second = scenario(if depth >= 2 { depth } else { 0 }, sqls, corrupt_before, &reads2, base2, 4096, " from a");
+    if second["found"] == json!(true) { return second; }
+    let mut known = first["known_failures"].as_array().cloned().unwrap_or_default();
+    known.extend(second["known_failures"].as_array().cloned().unwrap_or_default());
+    json!({"found": false, "tried": first["tried"].as_u64().unwrap_or(0) + second["tried"].as_u64().unwrap_or(0),
+        "files": first["files"].as_u64().unwrap_or(0) + second["files"].as_u64().unwrap_or(0), "known_failures": known})
+}
+
+/// one written database (`sqls[..corrupt_before]`), every fault of the list on every `.col` / `.idx` file, the reads after a reopen
+fn scenario(depth: usize, sqls: Vec<String>, corrupt_before: usize, reads: &[&str], base: Vec<Vec<Vec<String>>>, block: usize, damaged_from: &str) -> Value {
+    let mut tried = 0u64;
+    let mut sqls = sqls;
+    for r in reads { sqls.push((*r).into()); }
     // reference run: damage nothing (kind 2 rewriting a byte with its own value is not expressible; use a no-op flip twice instead)
     let (base, files) = match h::sql_session_corrupt(block, &sqls, corrupt_before, 0, 1, usize::MAX, 0) {
         // truncating to `usize::MAX % len` would damage: instead take the listing from a run whose results we ignore
         Ok((_, files)) => {
             // undamaged reference: file index beyond every a-file is impossible, so read the expected rows from the model
-            (expected(&reads), files)
+            (base, files)
         }
         Err(e) => return json!({"found": true, "tried": 1, "input": {"statements": sqls}, "observed": format!("reference session failed: {e}")}),
     };
@@ -68,7 +90,7 @@ pub fn corrupt(depth: usize) -> Value {
             }
             for (j, want) in base.iter().enumerate() {
                 let got = &outs[corrupt_before + j];
-                let reads_a = reads[j].contains(" from a");
+                let reads_a = reads[j].contains(damaged_from);
                 match got {
                     Ok(rows) => {
                         let mut g = rows.clone(); g.sort();
